@@ -124,7 +124,7 @@ class GuardFlow:
 
 
 class LockModel:
-    def __init__(self, prog):
+    def __init__(self, prog, extra_dischargers=()):
         self.prog = prog
         self.guard_adts = guardish_adts(prog)
         self.flows = {b.id: GuardFlow(b, self.guard_adts) for b in prog.bodies}
@@ -137,7 +137,7 @@ class LockModel:
         self.can_lock = self._closure(lambda bid: bool(self.direct_lock[bid]))
         self.can_cb = self._closure(lambda bid: bool(self.direct_cb[bid]))
         # panic: undischarged sites per body
-        self.panic_obs, self.panic_sites = r_panic.evaluate(prog.bodies)
+        self.panic_obs, self.panic_sites = r_panic.evaluate(prog.bodies, extra_dischargers=extra_dischargers)
         bad_bodies = set()
         self.undischarged = {}
         for o in self.panic_obs:
